@@ -6,16 +6,20 @@ package main
 
 import (
 	"bytes"
+	"context"
 	"encoding/json"
 	"fmt"
 	"go/ast"
 	"go/parser"
 	"go/token"
 	"os"
+	"os/exec"
 	"path/filepath"
 	"sort"
 	"strconv"
 	"strings"
+	"sync"
+	"time"
 
 	"mvdan.cc/sh/v3/syntax"
 )
@@ -130,6 +134,87 @@ func main() {
 	}
 	out.Close()
 	fmt.Printf("entries=%d valid_in_some_variant=%d\n", len(entries), nvalid)
+	writeVariants(entries)
+}
+
+// writeVariants records line-break variants of the short bash-valid entries:
+// one space replaced by a newline, kept when BOTH this tree's parser and the
+// real bash ("bash -n", syntax check only, nothing is executed) accept the
+// result. The file is the checks' independent record of "this is a valid
+// program": a later change that makes the parser reject one of them is then
+// seen as such instead of silently shrinking the set of valid programs.
+func writeVariants(entries []Entry) {
+	type job struct {
+		src  string
+		from string
+	}
+	var jobs []job
+	for i, e := range entries {
+		if len(e.Src) == 0 || len(e.Src) > 300 || !slicesContains(e.Valid, "bash") || strings.ContainsRune(e.Src, 0) {
+			continue
+		}
+		for j := 0; j < len(e.Src); j++ {
+			if e.Src[j] != ' ' && e.Src[j] != '\t' {
+				continue
+			}
+			v := e.Src[:j] + "\n" + e.Src[j+1:]
+			if _, err := syntax.NewParser(syntax.Variant(syntax.LangBash), syntax.KeepComments(true)).Parse(strings.NewReader(v), ""); err != nil {
+				continue
+			}
+			jobs = append(jobs, job{v, fmt.Sprintf("line break at %d of corpus[%d]", j, i)})
+		}
+	}
+	dir, err := os.MkdirTemp("", "harvest-bash-")
+	if err != nil {
+		panic(err)
+	}
+	defer os.RemoveAll(dir)
+	ok := make([]bool, len(jobs))
+	var wg sync.WaitGroup
+	sem := make(chan struct{}, 16)
+	for i := range jobs {
+		wg.Add(1)
+		sem <- struct{}{}
+		go func(i int) {
+			defer wg.Done()
+			defer func() { <-sem }()
+			fn := filepath.Join(dir, strconv.Itoa(i)+".sh")
+			if os.WriteFile(fn, []byte(jobs[i].src), 0o644) != nil {
+				return
+			}
+			ctx, cancel := context.WithTimeout(context.Background(), 5*time.Second)
+			defer cancel()
+			ok[i] = exec.CommandContext(ctx, "bash", "-n", fn).Run() == nil
+			os.Remove(fn)
+		}(i)
+	}
+	wg.Wait()
+	out, err := os.Create("/verif/corpus/variants.jsonl")
+	if err != nil {
+		panic(err)
+	}
+	enc := json.NewEncoder(out)
+	enc.SetEscapeHTML(false)
+	n := 0
+	seen := map[string]bool{}
+	for i, j := range jobs {
+		if ok[i] && !seen[j.src] {
+			seen[j.src] = true
+			enc.Encode(Entry{Src: j.src, Valid: []string{"bash"}, From: j.from})
+			n++
+		}
+	}
+	out.Close()
+	fmt.Printf("line-break variants: candidates=%d accepted_by_parser_and_bash=%d\n", len(jobs), n)
+}
+
+func slicesContains(xs []string, x string) bool {
+	for _, y := range xs {
+		if y == x {
+			return true
+		}
+	}
+	return false
 }
 
 // looksShell filters error-table candidates: Go format strings and error
